@@ -46,6 +46,29 @@ Theorem highest_moves_only_in_get_frame : forall st ms m,
 Proof. exact get_highest. Qed.
 Print Assumptions highest_moves_only_in_get_frame.
 
+(* the extra sender invariant, over the legitimate sender histories of C10 ([reach]): after get_frame cut a
+   frame, highest_offset is exactly the maximum of its old value and the end of that frame -- so at every moment
+   it is the largest end offset of any frame ever emitted, and it grows by exactly the newly covered bytes *)
+Theorem sender_highest_is_max_frame_end : forall st g ms mo off data fin st',
+  reach st g -> s_reset st = None -> get_frame st ms mo = (SFrame off data fin, st') ->
+  s_highest st' = Z.max (s_highest st) (off + Zlen data).
+Proof. exact get_frame_highest_exact. Qed.
+Print Assumptions sender_highest_is_max_frame_end.
+
+(* every STREAM frame the stream loop cuts (FIN-only frames included) ends within the stream's limit, which is
+   covered by what the peer granted; it costs exactly the bytes it carries above the old highest_offset --
+   nothing when it only re-sends lost bytes -- and the connection stays within MAX_DATA.  Hypothesis
+   [reach (t_send t) g]: the stream's sender has a legitimate history in the sense of C10. *)
+Theorem frames_within_limit : forall c gm sid ms mo off data fin c' t g,
+  freach c gm -> find_strm sid (c_streams c) = Some t -> reach (t_send t) g ->
+  fstep c (OGet sid ms) = (FGet mo (SFrame off data fin), c') ->
+  off + Zlen data <= t_msdr t /\ t_msdr t <= granted c gm sid /\
+  c_used c' = c_used c + Z.max 0 (off + Zlen data - s_highest (t_send t)) /\
+  c_used c' <= c_max_data c' /\
+  (off + Zlen data <= s_highest (t_send t) -> c_used c' = c_used c).
+Proof. exact frames_within_limit_l. Qed.
+Print Assumptions frames_within_limit.
+
 (* stretch: a STREAM frame is cut only for a locally initiated stream inside the peer's stream-count limit *)
 Theorem blocked_streams_silent_stream_frames : forall c gm sid ms mo o c',
   freach c gm -> fstep c (OGet sid ms) = (FGet mo o, c') -> is_local c sid = true -> sid / 4 < ms_for c sid.
